@@ -187,6 +187,12 @@ def run_pipeline(ops, D, table, n_sym):
                     continue
                 d = sp.simplify(hi - st["k"])
                 if d in (0, 1):
+                    if d == 0:
+                        # kth == m needs m + 1 elements, but m candidates (the particle itself and m - 1 neighbours) already exist in
+                        # the smallest admissible configuration of m particles: numpy raises "kth out of bounds" there
+                        problems.append(("pivot-range", f"argpartition(kth={st['k']}) followed by [:{hi}]: kth must be a valid index of every admissible distance array, "
+                                                        f"but a configuration of exactly {hi} particles (the particle and its {sp.simplify(hi - 1)} neighbours) has indices 0..{sp.simplify(hi - 1)}; "
+                                                        f"kth = {sp.simplify(hi - 1)} selects the same {hi} smallest entries", True))
                     st = dict(kind="set", set=("smallest", hi), base=0)
                 else:
                     problems.append(("prefix", f"argpartition(kth={st['k']}) fixes only the set of the first kth (or kth+1) entries; "
